@@ -2,7 +2,7 @@
     Statements only. The comparison of the REAL import/export sections with [spec_imports] /
     [spec_export_names] / [spec_import_needs] (extracted) is done by ./check C03 on every run. *)
 From Coq Require Import List.
-From WacV Require Import Str Semver Names Graph Wiring WiringSpec EncodeModel WiringSim WiringCorrect AggProofs WiringWitness.
+From WacV Require Import Str Semver Names Graph Wiring WiringSpec EncodeModel WiringSim WiringCorrect AggProofs WiringWitness WiringImportsSpec.
 Import ListNotations.
 Local Open Scope nat_scope.
 
@@ -50,9 +50,32 @@ Theorem exports_spec_multi_named_definition_refuted :
 Proof. exact def_two_names_refutes. Qed.
 Print Assumptions exports_spec_multi_named_definition_refuted.
 
-(** imports_spec (the import items of the model log, minus those made by the type encoder, are exactly
-    [spec_imports]: explicit + canonicalised implicit names + package imports) is NOT proved yet: the
-    invariants of proofs/WiringImports.v track the index spaces, not [d_imports]. It follows the same
-    route ([AggInv] gives one entry per canonical name; [import_step] emits one [IImport] per entry
-    unless answered by an already imported interface). The real import sections are compared with
-    [spec_imports] by ./check C03 on every run. *)
+(** the import items the model encoder emits itself ([simports]: all [IImport] items; the type encoder's
+    imports of [use]d interfaces are [IDepImport] items) are exactly [spec_imports]: the canonical name of every
+    explicit import and of every unsatisfied argument, with its sort, plus (dependencies imported) one
+    component import per instantiated package — for every emission order and every type-encoder behaviour.
+    A requirement may instead be answered by an interface that is already imported under the same name
+    (recorded in [e_dedup]); a requirement answered by a DIFFERENTLY named import is excluded by the side
+    condition, and is a known finding of the real code. *)
+Theorem imports_spec : forall e u g dc tau ord st names,
+  EncInv e u g -> topo_orderb g ord = true ->
+  encode_with_order e u g dc tau ord = ROk (st, names) ->
+  (forall p, In p (e_dedup st) -> fst p = snd p) ->
+  (forall nm s, In (nm, s) (simports (e_log st)) -> In (nm, s) (spec_imports e u g dc ord)) /\
+  (forall nm s, In (nm, s) (spec_imports e u g dc ord) -> In (nm, s) (simports (e_log st)) \/ In (nm, nm) (e_dedup st)).
+Proof. exact WiringImportsSpec.imports_spec_topo. Qed.
+Print Assumptions imports_spec.
+
+(** what [decode_imports] (run on the real logs by ./check C03) reports with flag [false] is [simports] *)
+Theorem decode_imports_are_simports : forall l d d', decode_from d l = Some d' ->
+  forall nm s, In (nm, s, false) (d_imports d') <-> In (nm, s, false) (d_imports d) \/ In (nm, s) (simports l).
+Proof. exact WiringImportsSpec.decode_imports_simports. Qed.
+Print Assumptions decode_imports_are_simports.
+
+Theorem imports_spec_interface_id_dedup_refuted :
+  match encoded ops_dedup true with
+  | Some (dec, spec, dd) => dd <> [] /\ dec <> spec
+  | None => False
+  end.
+Proof. pose proof dedup_refutes as H. destruct (encoded ops_dedup true) as [[[dec spec] dd]|]; auto. destruct H as [-> H]. split; [discriminate | exact H]. Qed.
+Print Assumptions imports_spec_interface_id_dedup_refuted.
